@@ -94,7 +94,7 @@ def run(ctx, model_ok):
     zs = zones()
     named = [z for z in zs if z[0] in ("UTC", "EST", "IST", "NPT", "LINT", "BIT", "CET", "PST", "JST", "ACST")]
     groups = []   # (default zone name or None, list of cases)
-    defaults = [None, "EST", "IST", "NPT"] + ([rng.choice(zs)[0] for _ in range(2)] if ctx.quick() else [z[0] for z in rng.sample(zs, 20)])
+    defaults = [None, "EST", "IST", "NPT", "GMT-0:30", "GMT+5:45"] + ([rng.choice(zs)[0] for _ in range(2)] if ctx.quick() else [z[0] for z in rng.sample(zs, 20)])
     per = ctx.n(500, 12000)
     for dz in defaults:
         cases = []
@@ -127,6 +127,11 @@ def run(ctx, model_ok):
                     cases.append({"text": f"x = {d} {MON[m-1].lower()} {y} at {h}:{mi:02d}\nx as unix", "kind": "at", "ymd": (y, m, d), "hm": (h, mi), "oneline": False})
                 else:
                     cases.append({"text": f"{d} {MON[m-1].lower()} {y} at {h}:{mi:02d} as unix", "kind": "at", "ymd": (y, m, d), "hm": (h, mi), "oneline": True})
+        # every spelling of the GMT syntax as explicit zone (sign, hour 0, minutes), not left to the draw
+        for g in [z for z in zs if z[0].startswith("GMT")]:
+            for _ in range(2):
+                n = gen_ts(rng)
+                cases.append({"text": f"{n} to {g[0]}", "kind": "from", "n": n, "zone": g})
         groups.append((dz, cases))
     ops = []
     for dz, cases in groups:
@@ -139,6 +144,10 @@ def run(ctx, model_ok):
     for dz, cases in groups:
         tzr = res[i + 1].get("tz", ["UTC", 0])
         i += 2
+        want_off = dict(zs).get(dz) if dz else 0
+        if want_off is not None and tzr[1] != want_off:
+            ctx.oracle_fail({"class": "default-zone", "what": f"set_timezone({dz!r}) stores the offset {tzr[1]} minutes, the zone is {want_off} minutes from UTC",
+                             "ops": [{"op": "tz", "v": dz or "UTC"}, {"op": "get_tz"}, {"op": "tz", "v": "UTC"}]})
         for c in cases:
             r = res[i]
             i += 1
